@@ -2,11 +2,14 @@
    The model of h.fill.numpy(columns, weights) IS the property's right-hand side: the rows of the
    batch filled one by one, each with its weight (Model/Np.v).  That the numpy kernels of the
    implementation (masks, bincount, np.unique, batch formulas for mean and variance) compute this
-   is decided on every run by the correspondence and by the oracle on the implementation itself;
-   it is not a theorem - the kernels are not modelled.  What is proved is the algebra of batches
-   the property quantifies over. *)
-From Coq Require Import List Bool.
-From Hgm Require Import NumOps Xq Agg Ops Np Algebra Stream NpFacts.
+   is decided on every run by the correspondence and by the oracle on the implementation itself.
+   Proved: the algebra of batches the property quantifies over; that the aggregate of a batch is,
+   child by child and key by key, the aggregate of the sub-column the node hands down (what the
+   masks of the vectorised code implement); and that the batch formulas of the Average / Deviate
+   kernels equal the row recurrences in exact arithmetic.  Not modelled: the masks themselves
+   (bincount, np.unique, comparisons on float arrays) and binary64 summation order. *)
+From Coq Require Import List Bool QArith Qcanon.
+From Hgm Require Import NumOps Xq Agg Ops Np SL Algebra Stream NpFacts Denote LeafDenote.
 Import ListNotations.
 
 Theorem C03_content : forall (N : num_ops) (a : agg N) (rs : list (datum N * T N)),
@@ -30,7 +33,58 @@ Theorem C03_merge : forall (t a : agg Xq) (rs : list (datum Xq * xq)),
   fst (fillnp a rs) = add_t a (fst (fillnp (zero t) rs)).
 Proof. exact fillnp_merge. Qed.
 
+(* column-wise: the aggregate of a batch is, child by child, the aggregate of the sub-column the node
+   hands to that child (the masks of the vectorised code), recursively down to the leaves *)
+Theorem C03_columns_fixed : forall (N : num_ops) k q (rows : list (datum N * T N)) e fx sp tm ct,
+  all_done (Node k q e fx sp tm ct) rows ->
+  exists e' fx' sp',
+    fst (fillnp (Node k q e fx sp tm ct) rows) = Node k q e' fx' sp' tm ct /\
+    e' = fold_left (fun acc w => nadd acc w) (counted rows) e /\
+    forall i c, nth_error fx i = Some c ->
+      nth_error fx' i = Some (fst (fillnp c (sub_stream k q (List.length fx) i rows))).
+Proof.
+  intros N k q rows e fx sp tm ct H. rewrite fillnp_content.
+  destruct (fills_children k q rows e fx sp tm ct H) as (e' & fx' & sp' & E & _ & He & C).
+  exists e', fx', sp'. repeat split; auto. intros i c Hc. rewrite fillnp_content. apply C. exact Hc.
+Qed.
+
+Theorem C03_columns_sparse : forall (N : num_ops) k q (rows : list (datum N * T N)) e fx sp tm ct,
+  SL.sorted key_cmp sp -> all_done (Node k q e fx sp tm ct) rows ->
+  exists e' fx' sp',
+    fst (fillnp (Node k q e fx sp tm ct) rows) = Node k q e' fx' sp' tm ct /\
+    forall kk, sl_lookup key_cmp kk sp' =
+               grown tm (sl_lookup key_cmp kk sp) (sub_key k q (List.length fx) kk rows).
+Proof.
+  intros N k q rows e fx sp tm ct S H. rewrite fillnp_content.
+  destruct (fills_sparse k q rows e fx sp tm ct S H) as (e' & fx' & sp' & E & _ & _ & C).
+  exists e', fx', sp'. split; assumption.
+Qed.
+
+(* the batch formulas of the leaf kernels (average.py / deviate.py _numpy: numpy.average of the
+   batch, merged into the accumulator) give what the row-by-row recurrences give (exact instance,
+   finite data, positive weights) *)
+Theorem C03_average_kernel : forall (rs : rows) e m,
+  (0 < e)%Qc -> pos_rows rs -> rs <> [] ->
+  lfills LAverage (mkst (XF e) (XF m) (XF 0)) rs =
+  mkst (XF (e + sw rs)%Qc) (XF (np_merge_mean e m rs)) (XF 0).
+Proof. exact np_average_kernel. Qed.
+
+Theorem C03_average_kernel_empty : forall rs : rows, pos_rows rs -> rs <> [] ->
+  lfills LAverage (leaf_zero LAverage) rs = mkst (XF (sw rs)) (XF (np_mean rs)) (XF 0).
+Proof. exact np_average_kernel_empty. Qed.
+
+Theorem C03_deviate_kernel : forall (rs : rows) e m v,
+  (0 < e)%Qc -> pos_rows rs -> rs <> [] ->
+  lfills LDeviate (mkst3 (XF e) (XF m) (XF v)) rs =
+  mkst3 (XF (e + sw rs)%Qc) (XF (np_merge_mean e m rs)) (XF (np_merge_vte e m v rs)).
+Proof. exact np_deviate_kernel. Qed.
+
 Print Assumptions C03_content.
+Print Assumptions C03_columns_fixed.
+Print Assumptions C03_columns_sparse.
+Print Assumptions C03_average_kernel.
+Print Assumptions C03_average_kernel_empty.
+Print Assumptions C03_deviate_kernel.
 Print Assumptions C03_split.
 Print Assumptions C03_zero_weights.
 Print Assumptions C03_merge.
